@@ -72,6 +72,19 @@ fn part_a(a: &Args, out: &mut Out, rng: &mut Rng) {
                     let after: String = export_nodes(&d).lines().filter(|l| !l.starts_with("circuit") && *l != "end").collect::<Vec<_>>().join("|");
                     out.query("addunit", &g.to_string(), &format!("{} {}", d.number_of_variables, after));
                     out.count("A_two_unit_edits", 1);
+                    // a third one: a new feature, then the first clause again (node indices of removed leaves get reused)
+                    if r2.chance(0.5) {
+                        let h = want2.n as i32 + 1 + r2.below(2) as i32;
+                        let want3 = and_clause(&extend_tt(&want2, h as u32), &[h]);
+                        let seq = [h, f];
+                        let mut ok = true;
+                        for u in seq { if let Err(e) = apply(&mut d, vec![(vec![u], ClauseApplication::Add)]) { out.fail("unit-edit-panic", &file.text(), &format!("add unit clauses {f}, {g}, {h}, {f}"), &format!("panic: {e}"), "edited model"); ok = false; break; } }
+                        if ok {
+                            let mut r = r2.fork();
+                            if let Some((req, got, wanted)) = battery(&mut d, &want3, &mut r).first() { out.fail("query-after-unit-edit", &file.text(), &format!("add unit clauses {f}, {g}, {h}, {f} ; {req}"), got, wanted); }
+                            out.count("A_four_unit_edits", 1);
+                        }
+                    }
                 }
             }
         }
@@ -106,6 +119,9 @@ fn part_b(a: &Args, out: &mut Out, rng: &mut Rng) {
         let mut cur_n = n;
         let mut cur_tt = cnf_tt(n, &cls);
         let mut hist: Vec<String> = Vec::new();
+        let mut used_subdag = false;
+        let mut last_strategy = IncrementalStrategy::Error;
+        let mut prev_ambiguous = false;   // the latest edit added a clause that was already stored: its inverse is ill-defined
         let mut prev: Option<(TT, u32, Vec<(Vec<i32>, ClauseApplication)>)> = None;
         let steps = 1 + rng.below(4);
         for _ in 0..steps {
@@ -113,17 +129,27 @@ fn part_b(a: &Args, out: &mut Out, rng: &mut Rng) {
             let stored: Vec<Vec<i32>> = d.inter_graph.cnf_clauses.clone();
             let kind = rng.below(100);
             let (ops, want_tt, want_n, label): (Vec<(Vec<i32>, ClauseApplication)>, TT, u32, String);
-            if kind < 10 && prev.is_some() {
+            let mut step_is_inverse = false;
+            if kind < 10 && prev.is_some() && !prev_ambiguous {
                 // the inverse of the latest edit (should hit the undo cache)
                 let (ptt, pn, pops) = prev.clone().unwrap();
                 let inv: Vec<(Vec<i32>, ClauseApplication)> = pops.iter().map(|(c, ap)| (c.clone(), !*ap)).collect();
                 label = format!("inverse of the latest edit {:?}", inv.iter().map(|(c, ap)| format!("{}{:?}", if *ap == ClauseApplication::Add { "+" } else { "-" }, c)).collect::<Vec<_>>());
-                ops = inv; want_tt = ptt; want_n = pn;
+                ops = inv; want_tt = ptt; want_n = pn; step_is_inverse = true;
             } else if kind < 35 && !stored.is_empty() {
                 // remove a stored clause
                 let c = rng.pick(&stored).clone();
-                let rest: Vec<Clause> = { let mut removed = false; stored.iter().filter(|x| { if !removed && **x == c { removed = true; false } else { true } }).map(|x| x.iter().copied().collect()).collect() };
-                want_tt = cnf_tt(cur_n, &rest); want_n = cur_n;
+                // "the formula without it": every copy of the clause goes
+                let cset: Clause = c.iter().copied().collect();
+                let rest: Vec<Clause> = stored.iter().map(|x| x.iter().copied().collect::<Clause>()).filter(|x| *x != cset).collect();
+                // removing exactly what the latest edit added is the inverse of that edit: all previous answers come back
+                // removing a clause that the latest edit added although it was already stored: plain removal and inverse disagree
+                if prev_ambiguous && prev.as_ref().map(|(_, _, pops)| pops.iter().any(|(pc, ap)| *ap == ClauseApplication::Add && pc.iter().copied().collect::<Clause>() == cset)).unwrap_or(false) { continue; }
+                let is_inverse = !prev_ambiguous && prev.as_ref().map(|(_, _, pops)| {
+                    // the effective part of the latest edit (tautologies are dropped by the edit)
+                    let eff: Vec<&(Vec<i32>, ClauseApplication)> = pops.iter().filter(|(pc, _)| !pc.iter().any(|l| pc.contains(&-l))).collect();
+                    eff.len() == 1 && eff[0].1 == ClauseApplication::Add && eff[0].0.iter().copied().collect::<Clause>() == cset }).unwrap_or(false);
+                if is_inverse { step_is_inverse = true; let (ptt, pn, _) = prev.clone().unwrap(); want_tt = ptt; want_n = pn; } else { want_tt = cnf_tt(cur_n, &rest); want_n = cur_n; }
                 label = format!("remove {:?}", c);
                 ops = vec![(c, ClauseApplication::Remove)];
             } else {
@@ -135,7 +161,7 @@ fn part_b(a: &Args, out: &mut Out, rng: &mut Rng) {
                     let w = rng.below(100);
                     if w < 12 { let v = 1 + rng.below(cur_n as usize) as i32; added.push(vec![v, -v]); }                       // tautology
                     else if w < 22 && !stored.is_empty() { added.push(rng.pick(&stored).clone()); }                                // duplicate of a stored clause
-                    else if w < 34 { nn = cur_n + 1 + rng.below(2) as u32; let other = 1 + rng.below(cur_n as usize) as i32; added.push(vec![nn as i32, if rng.chance(0.5) { other } else { -other }]); }
+                    else if w < 34 { let other = 1 + rng.below(cur_n as usize) as i32; let fresh = cur_n + 1 + rng.below(2) as u32; nn = nn.max(fresh); added.push(vec![fresh as i32, if rng.chance(0.5) { other } else { -other }]); }
                     else { added.push(rand_clause(rng, cur_n, 4).into_iter().collect()); }
                 }
                 let mut t = extend_tt(&cur_tt, nn);
@@ -151,14 +177,23 @@ fn part_b(a: &Args, out: &mut Out, rng: &mut Rng) {
             out.eval(Some(format!("{text}|{h}")));
             let before = (cur_tt.clone(), cur_n, ops.clone());
             match apply(&mut d, ops) {
-                Err(e) => { out.fail("edit-panic", &text, &h, &format!("panic: {e}"), "edited model"); break; }
-                Ok(s) => out.count(&format!("B_strategy_{}", strategy_name(s)), 1),
+                Err(e) => { out.fail(if used_subdag { "edit-panic-after-subdag-replacement" } else { "edit-panic" }, &text, &h, &format!("panic: {e}"), "edited model"); break; }
+                Ok(s) => { out.count(&format!("B_strategy_{}", strategy_name(s)), 1); if s == IncrementalStrategy::SubDAGReplacement { used_subdag = true; } last_strategy = s; hist.last_mut().map(|l| l.push_str(&format!(" [{}]", strategy_name(s)))); }
             }
+            // the inverse of an edit that added a unit clause to a CNF-backed model: the stored clauses were unit-propagated with it
+            let undoes_unit = step_is_inverse && before.2.iter().any(|(c, ap)| *ap == ClauseApplication::Remove && c.len() == 1);
+            let h = hist.join(" ; ");
             let mut r = rng.fork();
             if let Some((req, got, wanted)) = battery(&mut d, &want_tt, &mut r).first() {
-                out.fail("query-after-edit", &text, &format!("{h} ; {req}"), got, wanted);
+                // the call site is part of the failure's identity: histories in which the sub-DAG splice (switch_sub_dag) ran
+                out.fail(if used_subdag { "query-after-subdag-replacement" } else if undoes_unit { "query-after-undoing-a-unit-clause" } else { "query-after-edit" }, &text, &format!("{h} ; {req}"), got, wanted);
                 break;
             }
+            // an edit that changed nothing leaves the undo information of the edit before it in place
+            if last_strategy == IncrementalStrategy::Tautology { cur_tt = want_tt; cur_n = want_n; continue; }
+            prev_ambiguous = before.2.iter().any(|(c, ap)| *ap == ClauseApplication::Add && { let cs: Clause = c.iter().copied().collect(); stored.iter().any(|x| x.iter().copied().collect::<Clause>() == cs) });
+            // removing a stored clause that the latest edit had (re-)added is neither a plain removal nor a clean inverse
+            if prev_ambiguous && before.2.iter().any(|(_, ap)| *ap == ClauseApplication::Remove) { prev_ambiguous = false; }
             prev = Some(before);
             cur_tt = want_tt; cur_n = want_n;
         }
@@ -173,4 +208,23 @@ pub fn c11(a: &Args) {
     part_a(a, &mut out, &mut rng);
     part_b(a, &mut out, &mut rng);
     out.finish("A: every model of the C01 space x unit clauses (quick: 3 sampled literals per model, thorough: every literal) plus unit clauses over new features n+1..n+3, a second unit clause on top for a third of them; after each edit the C01-C06 battery (feature count, counts, SAT, core, enumeration set, sampling validity) against the truth table of `previous formula AND clause`, and the edited node array compared exactly with the Lean model of add_unit_clause + rebuild. B: random CNFs (2..10 variables) loaded through the real loader with the self-validated reference compiler behind the hook x sequences of 1..4 edits (add 1-2 clauses of width 1..4 incl. tautologies, duplicates of stored clauses, clauses over new variables; remove a clause of the stored CNF; the inverse of the latest edit), battery after each edit against the truth table of the edited clause set");
+}
+
+
+/// debugging aid: `vharness editprobe --out FILE` where FILE holds a CNF followed by edit lines `+ 1 2 / -3` or `- 1 2`
+pub fn probe(path: &str) {
+    refcomp::install();
+    let text = std::fs::read_to_string(path).unwrap();
+    let cnf: String = text.lines().filter(|l| !l.starts_with('+') && !l.starts_with('-') || l.trim_start_matches('-').trim_start().chars().next().map(|c| c.is_ascii_digit()).unwrap_or(false) && l.trim_end().ends_with(" 0")).map(|l| format!("{l}\n")).collect();
+    let p = format!("{path}.cnf");
+    std::fs::write(&p, &cnf).unwrap();
+    let mut d = Ddnnf::from_file(std::path::Path::new(&p), None);
+    println!("loaded: n={} count={} stored={:?}", d.number_of_variables, d.rc(), d.inter_graph.cnf_clauses);
+    for l in text.lines() {
+        let (app, rest) = if let Some(r) = l.strip_prefix("+ ") { (ClauseApplication::Add, r) } else if let Some(r) = l.strip_prefix("- ") { if l.trim_end().ends_with(" 0") { continue; } (ClauseApplication::Remove, r) } else { continue };
+        let ops: Vec<(Vec<i32>, ClauseApplication)> = rest.split('/').map(|c| (c.split_whitespace().map(|x| x.parse().unwrap()).collect(), app)).collect();
+        let s = apply(&mut d, ops.clone());
+        println!("{:?} -> {:?}: n={} count={} stored={:?}", ops, s.map(strategy_name), d.number_of_variables, d.rc(), d.inter_graph.cnf_clauses);
+        print!("{}", export_nodes(&d));
+    }
 }
